@@ -331,8 +331,22 @@ func (h *harness) checkAccepted(height uint32) {
 	if height < want {
 		// fail() takes hm itself
 		msg := fmt.Sprintf("at quiescence of the concurrent phase (before any re-offer) the height is %d, but every index up to %d was added by consensus or accepted in range by a Put call (accepted %v, consensus before the last accepted Put %v): an accepted element was dropped from the queue", height, want, h.accepted, h.consDone)
+		// Mechanism: was the first missing element handed to the chain by the
+		// queue while it was not the next one (Run used a height it had read
+		// before taking the lock), which fails and makes Run drop it?
+		lost := height + 1
+		kind := "accepted-offer-lost:"
+		h.L.hm.Lock()
+		for _, a := range h.L.Log {
+			if a.Caller == "queue" && !a.OK && a.Blk.Idx == lost && a.Blk.Idx > a.HBefore+1 {
+				kind = "accepted-offer-lost-after-early-add:"
+				msg += fmt.Sprintf("; the queue had called AddItem(%d) at height %d", a.Blk.Idx, a.HBefore)
+				break
+			}
+		}
+		h.L.hm.Unlock()
 		h.hm.Unlock()
-		h.fail("accepted-offer-lost:"+h.sc.FullName(), msg)
+		h.fail(kind+h.sc.FullName(), msg)
 		h.hm.Lock()
 	}
 }
